@@ -254,7 +254,7 @@ def replay(case):
     return evaluate(case).verdicts
 
 
-PARAMS = {"quick": 500, "thorough": 15000}
+PARAMS = {"quick": 900, "thorough": 15000}
 
 
 def shard(ctx):
